@@ -218,6 +218,13 @@ class BoundTemplate:
             return True
 
         uptodate = self.uptodate()
+        if isinstance(uptodate, Awaitable):
+            # The template was loaded asynchronously and we can't await here.
+            # Report it as stale so the caller reloads it synchronously.
+            close = getattr(uptodate, "close", None)
+            if close:
+                close()
+            return False
         if not isinstance(uptodate, bool):
             raise LiquidError(
                 f"expected a boolean from uptodate, found {type(uptodate).__name__}",
